@@ -83,6 +83,25 @@ fn get(port: u16, path: &str) -> Option<(u16, Vec<u8>)>
     let status : u16 = head.split_whitespace().nth(1)?.parse().ok()?;
     Some((status, raw[split + 4..].to_vec()))
 }
+/*  the text form of the 256-bit value that differs from `name`'s in byte i (independent base-62 arithmetic: 43 digits, least
+    significant first, of the little-endian value) */
+fn near_miss(name: &str, i: usize) -> Option<String>
+{
+    const A : &[u8] = b"0123456789abcdefghijklmnopqrstuvwxyzABCDEFGHIJKLMNOPQRSTUVWXYZ";
+    if name.len() != 43 { return None; }
+    let mut n = [0u32; 33];
+    for c in name.bytes().rev()
+    {
+        let mut carry = A.iter().position(|a| *a == c)? as u32;
+        for limb in n.iter_mut() { let cur = *limb * 62 + carry; *limb = cur % 256; carry = cur / 256; }
+    }
+    if n[32] != 0 { return None; }
+    n[i] ^= 0x04;
+    let mut big : Vec<u32> = n[..32].iter().rev().cloned().collect();
+    let mut out = String::new();
+    for _ in 0..43 { let mut rem = 0u32; for d in big.iter_mut() { let cur = rem * 256 + *d; *d = cur / 62; rem = cur % 62; } out.push(A[rem as usize] as char); }
+    Some(out)
+}
 fn hash_name(bytes: &[u8]) -> String { let mut f = TicketFactory::new(); f.input_bytes(bytes); f.result().human_readable() }
 
 #[test]
@@ -139,6 +158,7 @@ fn verif_serve_loopback()
         format!("/files/{}/x", good), format!("/files/{}/..", good), format!("/files/{}/../../secret.txt", good), format!("/files/{}%2Fx", good), format!("/files/{}/{}", good, good),
         format!("/cache/{}", good), format!("/{}", good), format!("/files/x/{}", good), format!("/rules/{}", good), format!("/rules/{}/{}/x", good, good),
     ];
+    for i in [0usize, 7, 8, 20, 31].iter() { for name in cached.iter().take(3) { if let Some(n) = near_miss(name, *i) { if !cached.contains(&n) { not_found.push(format!("/files/{}", n)); } } } }
     /*  the rules endpoint: for each rule, the recorded target hashes for the sources it was last built from */
     let rules = parse("build.rules".to_string(), RULES.to_string()).unwrap();
     for rule in rules.iter()
@@ -160,6 +180,12 @@ fn verif_serve_loopback()
                 if lines != expected { wrong(&req, format!("recorded target hashes {:?}, the targets on disk hash to {:?}", lines, expected), &mut bad); }
             },
             other => wrong(&req, format!("recorded (rule, sources) pair answered {:?}", other.map(|x| x.0)), &mut bad),
+        }
+        /*  near misses: a well-formed name that differs from a recorded one in ONE of its 32 bytes was never recorded */
+        for i in [0usize, 7, 8, 20, 31].iter()
+        {
+            if let (Some(nr), Some(ns)) = (near_miss(&rule_name, *i), near_miss(&sources_name, *i))
+            { not_found.push(format!("/rules/{}/{}", rule_name, ns)); not_found.push(format!("/rules/{}/{}", nr, sources_name)); }
         }
         not_found.push(format!("{}/x", req)); not_found.push(format!("/rules/{}/{}", rule_name, absent)); not_found.push(format!("/rules/{}/{}", absent, sources_name));
         not_found.push(format!("/rules/{}/{}", &rule_name[..42], sources_name)); not_found.push(format!("/rules/{}/..", rule_name)); not_found.push(format!("/rules/../{}", sources_name));
